@@ -7,6 +7,7 @@ from .. import bits, paths
 from ..core import call_attr, calls_in, const, dotted, is_const, kwarg, norm, slice_parts, text, walk_local
 
 EXPLANATION = [
+    "C08.disconnecting-stays-registered: the failure handler of create_classic_channel does not remove a channel that is in WAIT_DISCONNECT: the peer's Disconnection Response still finds it and closes it, so a mode mismatch ends with both ends closed.",
     'C08.config-options: (shared with C18) the configuration-option decoder loops while a 2-byte header is left and takes exactly the announced value bytes: the 3-byte FCS option (always last) is never dropped, so both ends agree on the FCS setting.',
     'C08.piggyback-ack: every site of EnhancedRetransmissionProcessor that serialises a pending I-frame sets its req_seq from the current receive state (self._req_seq_num) first.',
     'C08.fcs-negotiation: FCS negotiation converges: a refusal of the FCS option suggests a value the refusing side accepts (never an echo), a request for no FCS is always accepted, and the requester adopts the suggested setting into fcs_enabled before it configures again.',
@@ -598,7 +599,27 @@ def config_options_rule(ctx):
     config_options(ctx, 'C08.config-options')
 
 
+def disconnecting_stays_registered(ctx):
+    """"both ends open in the same mode or both ends closed": an initiator that finds a mode mismatch fails its connect() and
+    sends a Disconnection Request; the peer's response is routed through the manager's table.  The failure path of
+    create_classic_channel therefore keeps a channel that is in WAIT_DISCONNECT registered (the response handler closes and
+    deregisters it); removing it at once leaves the channel object in WAIT_DISCONNECT for ever."""
+    R, p = ctx.r, ctx.p
+    rule = 'C08.disconnecting-stays-registered'
+    fn = p.find('bumble.l2cap.ChannelManager.create_classic_channel')
+    if fn is None:
+        R.bad(rule, 'bumble.l2cap.ChannelManager.create_classic_channel', 'anchor missing')
+        return
+    pops = [c for h in ast.walk(fn) if isinstance(h, ast.ExceptHandler) for c in calls_in(h) if call_attr(c) == 'pop' or False] + [d for h in ast.walk(fn) if isinstance(h, ast.ExceptHandler) for d in ast.walk(h) if isinstance(d, ast.Delete)]
+    R.check(bool(pops), rule, 'bumble.l2cap.ChannelManager.create_classic_channel | failure path', f'{len(pops)} removal(s) in the failure handler', 'the failure handler no longer removes the channel', p.loc(fn))
+    for c in pops:
+        g = [norm(t) for t, pol in paths.flat_guards(c, stop=fn)]
+        R.check(any('WAIT_DISCONNECT' in x for x in g), rule, 'bumble.l2cap.ChannelManager.create_classic_channel | not while disconnecting', 'the removal is skipped for a channel in WAIT_DISCONNECT',
+                'the failure handler removes the channel from the table whatever its state: after a mode mismatch the Disconnection Response finds no channel, the initiator\'s channel stays in WAIT_DISCONNECT while the peer\'s is CLOSED', p.loc(c))
+
+
 RULES = [
+    ('C08.disconnecting-stays-registered', disconnecting_stays_registered),
     ('C08.config-options', config_options_rule),
     ('C08.piggyback-ack', piggyback_ack),
     ('C08.fcs-negotiation', fcs_negotiation),
